@@ -19,18 +19,27 @@ def run(tier):
         confs += [(3600, 5, 1000, [500, 5000, 600000], 4200000, 1300000), (2, 1, 250, [100, 300, 1000], 7000, 2500)]
         confs = [(a, b, c, d, int(e * 1.5), int(f * 1.3)) for a, b, c, d, e, f in confs]
     st = tr = nscripts = nsteps = 0
-    for sync, initial, timeout, steps, tmax, treplay in confs:
+    for ci, (sync, initial, timeout, steps, tmax, treplay) in enumerate(confs):
         for mode in ('distinct', 'same', 'none'):
-            tag = 's%d-i%d-t%d-%s' % (sync, initial, timeout, mode)
+            # the application may set the clock before the first loop() call (every other configuration; always when there
+            # is no reference clock, where an unset clock has nothing to keep). Without a reference clock the time between
+            # loop() calls is stretched (still far below the 65.535 s the 16-bit bookkeeping allows) so that schedules
+            # run past one wrap of the 16-bit millisecond counter.
+            preset = (5000 + ci) if mode == 'none' else (100 if ci % 2 == 1 else None)
+            if mode == 'none':
+                steps_m, tmax_m, treplay_m = [x * 10 for x in steps], max(tmax * 10, 200000), max(treplay * 10, 140000)
+            else:
+                steps_m, tmax_m, treplay_m = steps, tmax, treplay
+            tag = 's%d-i%d-t%d-%s%s' % (sync, initial, timeout, mode, '' if preset is None else '-set%d' % preset)
             cfg = os.path.join(work, 'SCL_%s.cfg' % tag)
-            clocks.scl_cfg(cfg, sync, initial, timeout, steps, tmax, mode)
+            clocks.scl_cfg(cfg, sync, initial, timeout, steps_m, tmax_m, mode, preset=preset)
             r = common.run_tlc('SystemClockLoop', cfg, timeout=3000)
             common.tlc_must_pass(r, 'SystemClockLoop %s' % tag)
             st += r.distinct
             tr += r.generated
             # the same model to a shorter horizon, with every transition dumped and replayed in the real class
             cfg2 = os.path.join(work, 'SCL_%s_dump.cfg' % tag)
-            clocks.scl_cfg(cfg2, sync, initial, timeout, steps, treplay, mode, dump=True)
+            clocks.scl_cfg(cfg2, sync, initial, timeout, steps_m, treplay_m, mode, dump=True, preset=preset)
             r2 = common.run_tlc('SystemClockLoop', cfg2, workers=1, timeout=3000)
             common.tlc_must_pass(r2, 'SystemClockLoop %s (dump)' % tag)
             edges = [e for e in common.tlc_prints(r2.out) if isinstance(e, dict) and 'ev' in e]
@@ -41,14 +50,21 @@ def run(tier):
             need = {'noref'} if mode == 'none' else {'send', 'valid', 'invalid', 'timeout', 'waiting', 'ok', 'wait'}
             if not need <= evs:
                 raise common.MachineryError('vacuous model run %s: events never taken: %s' % (tag, need - evs))
-            a, b = clocks.scl_replay_edges(chk, exe, edges, (sync, initial, timeout, mode), tag)
+            if mode == 'none' and max(e['to']['now'] for e in edges) < 70000:
+                raise common.MachineryError('vacuous model run %s: no schedule passes one wrap of the 16-bit millisecond counter' % tag)
+            a, b = clocks.scl_replay_edges(chk, exe, edges, (sync, initial, timeout, mode), tag, preset=preset)
             nscripts += a
             nsteps += b
+            if mode == 'none':
+                # the same schedules with an application that reads the clock only after the last loop() call
+                a, b = clocks.scl_replay_edges(chk, exe, edges, (sync, initial, timeout, mode), tag + '-quiet', preset=preset, quiet=True)
+                nscripts += a
+                nsteps += b
             if mode == 'distinct' and len(chk.cov['samples']) < 3:
                 chk.sample({'config': tag, 'model_edge': next(e for e in edges if e['ev'] == 'valid')})
     chk.add(states=st, transitions=tr, traces_validated_against_impl=nscripts, model_edges_replayed=nscripts, replayed_loop_calls=nsteps,
             configurations=len(confs) * 3,
-            rule='TLC exhaustive to the horizon for each (sync, initial, timeout) x {distinct, same, none}: ValidApplied, BackupLaw, NoCorrupt, Separation, BackoffLaw, BoundedResponse, RequestCount; every transition of the shorter-horizon graph replayed in a subclass of the real SystemClockLoop (injected clockMillis, recording reference/backup clocks) comparing FSM status, retry period, request/sync timestamps, clock state, backup writes, requests sent, getNow() and getLastSyncTime()')
+            rule='TLC exhaustive to the horizon for each (sync, initial, timeout) x {distinct, same, none}: ValidApplied, BackupLaw, NoCorrupt, Separation, BackoffLaw, BoundedResponse, RequestCount; every transition of the shorter-horizon graph replayed in a subclass of the real SystemClockLoop (injected clockMillis, recording reference/backup clocks) comparing FSM status, retry period, request/sync timestamps, clock state (read before getNow()), backup writes, requests sent, getNow() and getLastSyncTime(); the clock set by setNow() before the first call in every other configuration; without a reference clock: schedules up to 140 s (past one wrap of the 16-bit millisecond bookkeeping), also replayed with the clock read only after the last loop() call')
     chk.assume('time moves on a lattice of step sizes per configuration; loop() is called after every step (regular polling)')
     chk.assume('host unsigned long is 64-bit: 32-bit wrap of millis() inside SystemClockLoop is not exercised')
     return chk.finish()
